@@ -11,7 +11,8 @@ Claimed at proof level, partial.  Machine-checked:
   * a successful `Join._begin_apply` resolves common columns that both operands have, and in the
     automatic case they are key columns (`join_common_columns_resolved`);
   * a transfer node created by `transferred_to` never connects an engine to itself
-    (`transfer_never_to_same_engine`);
+    (`transfer_never_to_same_engine`), also when `Engine.transfer` is given a payload
+    (`transfer_with_payload_never_to_same_engine`, `transfer_with_payload_to_own_engine_raises`);
   * the documented no-op calls return the relation itself in an iteration engine
     (`noop_calls_return_self`), and ill-formed calls raise (`Props/C20`);
   * a unary operation applied with ANY combination of preferred_engine / backtrack / transfer / require options to an
@@ -185,6 +186,38 @@ theorem transfer_never_to_same_engine (st : Store) (fuel : Nat) (dest : Engine) 
     subst h2; subst h3
     intro heq
     exact he (by simp [Res.get, heq])
+
+/-- `Engine.transfer(target, payload)` (an iteration engine as destination; any target whose simplified form lives in
+an iteration engine): whatever the call returns is a NEW Transfer node whose source lives in ANOTHER engine - a call
+that would connect an engine to itself raises instead (`EngineError`). -/
+theorem transfer_with_payload_never_to_same_engine (st : Store) (fuel : Nat) (dest : Engine) (t : Rel)
+    (hd : dest.kind = .iter) (hk : ((transferSimplify dest t).getD t).engine.kind = .iter) (r : Res)
+    (h : transferWithPayload st (fuel+2) dest t = .ok r) :
+    ∃ u, r = .new (.transfer 0 dest u) ∧ dest ≠ u.engine := by
+  unfold transferWithPayload at h
+  by_cases he : (((transferSimplify dest t).getD t).engine == dest) = true
+  · simp [he] at h
+  · simp only [he, Bool.false_eq_true, if_false] at h
+    rw [transferTo] at h
+    cases hs : transferSimplify dest t with
+    | none =>
+      simp only [hs, Option.getD_none] at he hk
+      simp [hd, bind, Except.bind, pure, Except.pure, hs, he, conformIn, hk] at h
+      refine ⟨t, h.symm, ?_⟩
+      intro heq
+      exact he (by simp [heq])
+    | some s =>
+      simp only [hs, Option.getD_some] at he hk
+      simp [hd, bind, Except.bind, pure, Except.pure, hs, he, conformIn, hk] at h
+      refine ⟨s, h.symm, ?_⟩
+      intro heq
+      exact he (by simp [heq])
+
+/-- ... and it does raise whenever the (simplified) target already lives in the destination. -/
+theorem transfer_with_payload_to_own_engine_raises (st : Store) (fuel : Nat) (dest : Engine) (t : Rel)
+    (he : ((transferSimplify dest t).getD t).engine = dest) :
+    transferWithPayload st fuel dest t = .error .engine := by
+  simp [transferWithPayload, he]
 
 /-- The documented no-op calls return the relation itself (iteration engine): projection onto all
 columns, empty sort, whole-range slice, trivially-true selection. -/
